@@ -110,7 +110,7 @@ func PrepareQuery(ctx context.Context, typ Type, selectionSet *SelectionSet) err
 	// Selections that the executor would merge must agree at every level, not
 	// only at the top (which Parse checks); otherwise execution goes wrong.
 	if selectionSet != nil {
-		if err := detectMergeConflicts(selectionSet); err != nil {
+		if err := detectMergeConflicts(typ, selectionSet); err != nil {
 			return err
 		}
 	}
